@@ -1,5 +1,6 @@
 import YaegiVerif.Proofs.C01Sim
 import YaegiVerif.Proofs.C01Slots
+import YaegiVerif.Proofs.C01Clos
 import YaegiVerif.Expected.C01
 import YaegiVerif.Generated.C01
 /-
@@ -393,5 +394,228 @@ theorem dst_down_witness :
       = some 12 ∧
     (evalPre (compileExprDown (.bin .mul (.bin .add (.var 0) (.lit 1)) (.var 0)) 2 (some 0)).1 (fun _ => 3)).map (· 0)
       = some 16 := by decide
+
+/-! ## Level 3 — variables as cells, `:=`, function literals, loop variables
+     (Spec/GoClosure.lean, Model/Closures.lean, Proofs/C01Clos.lean)
+
+  The Go side: environments of locations, closures = code + environment, `:=` allocates, every iteration of a
+  three-clause or range loop has its own variable. The yaegi side: names resolved to (level, slot) at compile
+  time, frames of cells chained through `anc`, `getFunc` clones the frame, `:=` puts a fresh cell into the
+  slot, `loopVarFor` / `loopVarForEnd` / `loopVarKey` copy the loop variable into and out of a per-iteration cell. -/
+
+/-- tie: the functions and clauses Model/Closures.lean transcribes are textually the reviewed ones -/
+theorem closure_source_tie : Generated.C01.closureHashes = Expected.C01.closureHashes := by decide
+
+/-- tie: the choices of the source the model is parametrised by, as the extractor recognises them -/
+theorem mech_tie : Generated.C01.mechFacts = Expected.C01.mechFacts := by decide
+
+/-- the recognised choices are the mechanism the theorems are about -/
+theorem mech_expected : Clos.Mech.ofFacts Expected.C01.mechFacts = Clos.Mech.yaegi := by decide
+
+/-- **yaegi's frame mechanism implements Go's lexical scoping.** For every program of the closure fragment
+    that is well scoped (every name is declared before use in an enclosing scope: what the Go compiler
+    checks) and lies in the domain `inDom` — no `range` bound is a bare variable (F51), no loop body
+    redeclares the loop variable's name at its top level (F52) —, and every amount of fuel: resolving
+    names to (level, slot) and running over frames of cells — clone on function literal, fresh cell on
+    `:=`, `Set` through the cell on `=`, per-iteration cells for loop variables — gives the result of the
+    Go semantics over environments and locations: both out of fuel, or the same printed values and the
+    same kind of end (normal, run-time panic, stuck). -/
+theorem closure_frames_correct (p : Clos.Stmt) (fuel : Nat)
+    (hws : p.wellScoped [] = true) (hdom : p.inDom = true) :
+    Clos.runM Clos.Mech.yaegi fuel p = Clos.runS fuel p :=
+  Clos.run_agree p fuel hws hdom
+
+/-- … as both implications -/
+theorem closure_outcomes (p : Clos.Stmt) (fuel : Nat) (o : Clos.Outcome)
+    (hws : p.wellScoped [] = true) (hdom : p.inDom = true) :
+    Clos.runS fuel p = some o ↔ Clos.runM Clos.Mech.yaegi fuel p = some o := by
+  rw [closure_frames_correct p fuel hws hdom]
+
+/-- … and about what the driver computes: the model instantiated with the extracted facts -/
+theorem closure_frames_correct_extracted (p : Clos.Stmt) (fuel : Nat)
+    (hws : p.wellScoped [] = true) (hdom : p.inDom = true) :
+    Clos.runM (Clos.Mech.ofFacts Generated.C01.mechFacts) fuel p = Clos.runS fuel p := by
+  rw [mech_tie, mech_expected]; exact closure_frames_correct p fuel hws hdom
+
+/-- the invariant behind it, at every statement, for every fuel: from states related by a partial bijection
+    `β` between locations and cells — for every name the scope resolves, the cell at
+    `getFrame(level).data[index]` is the `β`-image of the location the environment gives the name; related
+    locations hold related values; a closure is related to a function value whose cloned frame holds the
+    cells of the closure's environment — a well-scoped statement and its resolved code both run out of
+    fuel, or both fail the same way with the same output, or end the same way in states related by an
+    extension of `β` that maps new locations to new cells only and leaves the slots below the statement's
+    first free slot alone. Also for the iterations of three-clause loops (`SimFor`: between body and
+    condition the current variable's location has no counterpart, its value lives in the loop variable's
+    own cell) and of range loops (`SimRng`). -/
+theorem closure_simulation (fuel : Nat) : Clos.SimStmt fuel ∧ Clos.SimFor fuel ∧ Clos.SimRng fuel := Clos.sim fuel
+
+namespace ClosEx
+/-- statements in sequence -/
+def sq : List Clos.Stmt → Clos.Stmt
+  | [] => .skip
+  | [s] => s
+  | s :: ss => .seq s (sq ss)
+def v (x : Nat) : Clos.XExpr Nat := .var x
+def n (k : Nat) : Clos.XExpr Nat := .lit (BitVec.ofNat 64 k)
+/-- `x = func() int { return r }` / `x := …` -/
+def lit0 (d : Bool) (x : Nat) (r : Clos.XExpr Nat) : Clos.Stmt := .setFn d x [] .skip r
+/-- `r := f(); fmt.Println(r)` with r = name 9 -/
+def callPrint (d : Bool) (f : Nat) : Clos.Stmt := .seq (.setCall d 9 f []) (.print (v 9))
+
+/-- (a) the classic: names 0 = i, 1 2 3 = f0 f1 f2
+    `f0, f1, f2 := …; for i := 0; i < 3; i = i + 1 { if i == 0 { f0 = func() int { return i } } … }; print f0(), f1(), f2()` -/
+def loopClosures : Clos.Stmt := sq [
+  lit0 true 1 (n 0), lit0 true 2 (n 0), lit0 true 3 (n 0),
+  .forc 0 (n 0) (.cmp .lt (v 0) (n 3)) 0 (.bin .add (v 0) (n 1)) (sq [
+    .ite (.cmp .eq (v 0) (n 0)) (lit0 false 1 (v 0)) .skip,
+    .ite (.cmp .eq (v 0) (n 1)) (lit0 false 2 (v 0)) .skip,
+    .ite (.cmp .eq (v 0) (n 2)) (lit0 false 3 (v 0)) .skip]),
+  callPrint true 1, callPrint false 2, callPrint false 3]
+
+/-- … the same with `for i := range 3` -/
+def rangeClosures : Clos.Stmt := sq [
+  lit0 true 1 (n 0), lit0 true 2 (n 0), lit0 true 3 (n 0),
+  .rng 0 (n 3) (sq [
+    .ite (.cmp .eq (v 0) (n 0)) (lit0 false 1 (v 0)) .skip,
+    .ite (.cmp .eq (v 0) (n 1)) (lit0 false 2 (v 0)) .skip,
+    .ite (.cmp .eq (v 0) (n 2)) (lit0 false 3 (v 0)) .skip]),
+  callPrint true 1, callPrint false 2, callPrint false 3]
+
+/-- (b) names 0 = x, 1 = f, 3 = k:
+    `k := 0; f := …; for k < 2 { x := k + 10; if k == 0 { f = func() int { return x } }; k = k + 1; print f() }` -/
+def redefine : Clos.Stmt := sq [
+  .set true 3 (n 0), lit0 true 1 (n 0),
+  .while (.cmp .lt (v 3) (n 2)) (sq [
+    .set true 0 (.bin .add (v 3) (n 10)),
+    .ite (.cmp .eq (v 3) (n 0)) (lit0 false 1 (v 0)) .skip,
+    .set false 3 (.bin .add (v 3) (n 1)),
+    callPrint true 1])]
+
+/-- (c) `x := 1; f := func() int { return x }; x = 5; print f()` -/
+def assignAfter : Clos.Stmt := sq [.set true 0 (n 1), lit0 true 1 (v 0), .set false 0 (n 5), callPrint true 1]
+
+/-- (d) `for i := 0; i < 6; i = i + 1 { print i; i = i + 1 }` -/
+def bodyAssign : Clos.Stmt :=
+  .forc 0 (n 0) (.cmp .lt (v 0) (n 6)) 0 (.bin .add (v 0) (n 1)) (sq [.print (v 0), .set false 0 (.bin .add (v 0) (n 1))])
+
+/-- a function literal two levels down referring to a variable of `main` and one of the enclosing literal;
+    recursion through a variable assigned after the literal was created; shadowing in a block:
+    `x := 2; fact := …; fact = func(k) int { if k <= 0 { return 1 }; t := fact(k - 1); return k * t }
+     mk := func(a) int { g := func(b) int { return x + a + b }; { x := 100; x = x + 1 }; r := g(1); return r }
+     print fact(5); print mk(10)`   names 0 = x, 1 = fact, 2 = k, 3 = t, 4 = mk, 5 = a, 6 = g, 7 = b, 8 = r -/
+def nested : Clos.Stmt := sq [
+  .set true 0 (n 2),
+  .setFn true 1 [2] .skip (n 0),
+  .setFn false 1 [2] (sq [.ite (.cmp .le (v 2) (n 0)) (.ret (n 1)) .skip, .setCall true 3 1 [.bin .sub (v 2) (n 1)]])
+    (.bin .mul (v 2) (v 3)),
+  .setFn true 4 [5] (sq [
+    .setFn true 6 [7] .skip (.bin .add (.bin .add (v 0) (v 5)) (v 7)),
+    .block (sq [.set true 0 (n 100), .set false 0 (.bin .add (v 0) (n 1))]),
+    .setCall true 8 6 [n 1]]) (v 8),
+  .setCall true 9 1 [n 5], .print (v 9), .setCall false 9 4 [n 10], .print (v 9)]
+
+/-- F52: `for i := 0; i < 2; i = i + 1 { i := 5; print i }` and `for i := 0; i < 2; i = i + 1 { i := i; i = i + 5; print i }` -/
+def redeclLit : Clos.Stmt :=
+  .forc 0 (n 0) (.cmp .lt (v 0) (n 2)) 0 (.bin .add (v 0) (n 1)) (sq [.set true 0 (n 5), .print (v 0)])
+def redeclSelf : Clos.Stmt :=
+  .forc 0 (n 0) (.cmp .lt (v 0) (n 2)) 0 (.bin .add (v 0) (n 1))
+    (sq [.set true 0 (v 0), .set false 0 (.bin .add (v 0) (n 5)), .print (v 0)])
+
+/-- F51: `m := 3; for i := range m { m = 1; print i }` — names 0 = i, 1 = m -/
+def rangeVarBound : Clos.Stmt := sq [.set true 1 (n 3), .rng 0 (v 1) (sq [.set false 1 (n 1), .print (v 0)])]
+end ClosEx
+
+/-- non-vacuity of the hypotheses: the examples are well scoped and inside the domain -/
+example : ClosEx.loopClosures.wellScoped [] = true ∧ ClosEx.loopClosures.inDom = true ∧
+    ClosEx.rangeClosures.wellScoped [] = true ∧ ClosEx.rangeClosures.inDom = true ∧
+    ClosEx.redefine.wellScoped [] = true ∧ ClosEx.assignAfter.wellScoped [] = true ∧
+    ClosEx.bodyAssign.wellScoped [] = true ∧ ClosEx.nested.wellScoped [] = true ∧ ClosEx.nested.inDom = true := by
+  decide
+
+/-- … and a use before the declaration, or a name of another function's block, is not -/
+example : (Clos.Stmt.seq (.print (ClosEx.v 0)) (.set true 0 (ClosEx.n 1))).wellScoped [] = false ∧
+    (Clos.Stmt.seq (.block (.set true 0 (ClosEx.n 1))) (.print (ClosEx.v 0))).wellScoped [] = false := by decide
+
+/-- (a) closures created in different iterations of a three-clause loop see different copies of the loop variable
+    (consequence of `closure_frames_correct`; the right-hand side is the Go semantics) -/
+theorem per_iteration_copies :
+    Clos.runM Clos.Mech.yaegi 40 ClosEx.loopClosures = some ⟨[0, 1, 2], .normal⟩ := by
+  rw [closure_frames_correct _ _ (by decide) (by decide)]; decide
+
+/-- … of a range loop too -/
+theorem per_iteration_copies_range :
+    Clos.runM Clos.Mech.yaegi 40 ClosEx.rangeClosures = some ⟨[0, 1, 2], .normal⟩ := by
+  rw [closure_frames_correct _ _ (by decide) (by decide)]; decide
+
+/-- (b) a closure created before `x := …` is executed again keeps the previous x -/
+theorem redefine_keeps_captured :
+    Clos.runM Clos.Mech.yaegi 40 ClosEx.redefine = some ⟨[10, 10], .normal⟩ := by
+  rw [closure_frames_correct _ _ (by decide) (by decide)]; decide
+
+/-- (c) an assignment `x = …` after the closure was created IS seen by it -/
+theorem assignment_seen_by_closure :
+    Clos.runM Clos.Mech.yaegi 40 ClosEx.assignAfter = some ⟨[5], .normal⟩ := by
+  rw [closure_frames_correct _ _ (by decide) (by decide)]; decide
+
+/-- (d) assignments to the loop variable in the body are seen by the post statement and the condition -/
+theorem body_assignment_seen_by_post :
+    Clos.runM Clos.Mech.yaegi 40 ClosEx.bodyAssign = some ⟨[0, 2, 4], .normal⟩ := by
+  rw [closure_frames_correct _ _ (by decide) (by decide)]; decide
+
+/-- nested literals (level 2), recursion through a variable, shadowing in a block -/
+theorem nested_levels :
+    Clos.runM Clos.Mech.yaegi 60 ClosEx.nested = some ⟨[120, 13], .normal⟩ := by
+  rw [closure_frames_correct _ _ (by decide) (by decide)]; decide
+
+/-- the model itself computes these (not only through the theorem), and the resolved addresses are what one
+    expects: in `g`'s body `x` is two frames up, `a` one, `b` its own slot 0 -/
+example : Clos.runM Clos.Mech.yaegi 40 ClosEx.loopClosures = some ⟨[0, 1, 2], .normal⟩ ∧
+    Clos.runM Clos.Mech.yaegi 60 ClosEx.nested = some ⟨[120, 13], .normal⟩ := by decide
+
+example : ((((Clos.Scope.mk [(0, 0)] 1 []).pushFunc [5]).declare 6).pushFunc [7]).lookup 0 = some (2, 0) ∧
+    ((((Clos.Scope.mk [(0, 0)] 1 []).pushFunc [5]).declare 6).pushFunc [7]).lookup 5 = some (1, 0) ∧
+    ((((Clos.Scope.mk [(0, 0)] 1 []).pushFunc [5]).declare 6).pushFunc [7]).lookup 7 = some (0, 0) := by decide
+
+/-- **witness** — `:=` implemented as `Set` into the cell already in the slot: the closure and the new x share -/
+theorem define_in_place_witness :
+    Clos.runS 40 ClosEx.redefine = some ⟨[10, 10], .normal⟩ ∧
+    Clos.runM { Clos.Mech.yaegi with defineFresh := false } 40 ClosEx.redefine = some ⟨[10, 11], .normal⟩ := by decide
+
+/-- **witness** — no per-iteration cell (loopVarFor copies into the cell already in the body's slot): all
+    closures see the last iteration's value -/
+theorem no_iteration_copy_witness :
+    Clos.runS 40 ClosEx.loopClosures = some ⟨[0, 1, 2], .normal⟩ ∧
+    Clos.runM { Clos.Mech.yaegi with loopFresh := false } 40 ClosEx.loopClosures = some ⟨[2, 2, 2], .normal⟩ ∧
+    Clos.runM { Clos.Mech.yaegi with keyFresh := false } 40 ClosEx.rangeClosures = some ⟨[2, 2, 2], .normal⟩ := by decide
+
+/-- **witness** — without loopVarForEnd the body's assignments are lost (finding F24, repaired by 8ca6eff) -/
+theorem no_copy_back_witness :
+    Clos.runS 40 ClosEx.bodyAssign = some ⟨[0, 2, 4], .normal⟩ ∧
+    Clos.runM { Clos.Mech.yaegi with loopCopyBack := false } 40 ClosEx.bodyAssign = some ⟨[0, 1, 2, 3, 4, 5], .normal⟩ := by
+  decide
+
+/-- **witness** — the closure keeps a reference to the live frame instead of a clone: a later `:=` (here: of a
+    later iteration) replaces the cell under the closure's feet -/
+theorem clone_by_reference_witness :
+    Clos.runM { Clos.Mech.yaegi with cloneFrame := false } 40 ClosEx.redefine = some ⟨[10, 11], .normal⟩ ∧
+    Clos.runM { Clos.Mech.yaegi with cloneFrame := false } 40 ClosEx.loopClosures = some ⟨[2, 2, 2], .normal⟩ := by decide
+
+/-- **witness (F51)** — what `inDom` excludes: the bound of `for i := range m` is the variable's own cell,
+    so `m = 1` in the body ends the loop after one iteration; Go evaluates the bound once -/
+theorem range_bound_alias_witness :
+    ClosEx.rangeVarBound.wellScoped [] = true ∧ ClosEx.rangeVarBound.inDom = false ∧
+    Clos.runS 40 ClosEx.rangeVarBound = some ⟨[0, 1, 2], .normal⟩ ∧
+    Clos.runM Clos.Mech.yaegi 40 ClosEx.rangeVarBound = some ⟨[0], .normal⟩ ∧
+    Clos.runM { Clos.Mech.yaegi with boundAlias := false } 40 ClosEx.rangeVarBound = some ⟨[0, 1, 2], .normal⟩ := by decide
+
+/-- **witness (F52)** — what the second clause of `inDom` excludes: cfg.go turns a define of the loop variable's
+    name at the top level of the loop body into a `nop` (meant for the pre-1.22 idiom `i := i`), so `i := 5` is
+    lost, and after `i := i` the body works on the loop variable itself -/
+theorem loopvar_redeclared_witness :
+    ClosEx.redeclLit.wellScoped [] = true ∧ ClosEx.redeclLit.inDom = false ∧
+    Clos.runS 40 ClosEx.redeclLit = some ⟨[5, 5], .normal⟩ ∧
+    Clos.runM Clos.Mech.yaegi 40 ClosEx.redeclLit = some ⟨[0, 1], .normal⟩ ∧
+    Clos.runS 40 ClosEx.redeclSelf = some ⟨[5, 6], .normal⟩ ∧
+    Clos.runM Clos.Mech.yaegi 40 ClosEx.redeclSelf = some ⟨[5], .normal⟩ := by decide
 
 end YaegiVerif.Props.C01
